@@ -148,7 +148,9 @@ class History(c01.History):
             ann = ga.category(s["cat"])[inner, dl.spec_spelling(toks[:k])]
         else:
             ann = ga.category(s["cat"])[ga.array_type(s["at"]), spec]
-        value = ga.make_value(s["vk"], s["shape"], s["dtype"])
+        value, variant = ga.variant_value(ga.make_value(s["vk"], s["shape"], s["dtype"]), s)
+        if variant:
+            self.ctx.classes[variant] += 1
         from vf.models import dtypes as dt
 
         ok_td = ga.type_accepts(s["at"], s["vk"]) and dt.accepts(s["cat"], s["dtype"])
